@@ -375,6 +375,46 @@ def w_value(job):
 
 
 
+TYPED_PATTERNS = [("int2", "int", "int"), ("int", "int2", "int"), ("int2", "int2", "int"), ("int2", "int", "int2"), ("float", "int", "int"), ("int", "float", "int"), ("int", "int", "float"),
+                  ("float2", "float", "int"), ("int3", "int", "float")]
+TYPED_VALUES = {"int": [3, 2, -5], "float": [2.5, 0.5, 4.0], "int2": [[7, -9], [4, 5], [2, -3]], "int3": [[7, -9, 4], [1, 2, 3], [5, 5, 5]], "float2": [[1.5, -2.5], [0.5, 4.0], [2.0, 3.0]]}
+
+
+def w_typed(job):
+    """Grouping is a matter of the operators, not of the operand types: `a op1 b op2 c` with vector / float operands in every
+    position pattern computes what the reference grouping computes (a lowering that regroups scaled vectors shows here)."""
+    from .. import engine
+    from ..refsem import RefError
+    lo, hi = job
+    ar = ["+", "-", "*", "/", "%"]
+    tmap = {"int": "int", "float": "float", "int2": ("vec", "int", 2), "int3": ("vec", "int", 3), "float2": ("vec", "float", 2)}
+    fails, evals, nontriv = [], 0, 0
+    for idx in range(lo, hi):
+        pat = TYPED_PATTERNS[idx // 25]
+        o1, o2 = ar[(idx // 5) % 5], ar[idx % 5]
+        for text in (f"a {o1} b {o2} c", f"a {o1} (b {o2} c)", f"(a {o1} b) {o2} c"):
+            tree = tree_to_miniast(ref_parse(text))
+            args = {n: TYPED_VALUES[t][k] for k, (n, t) in enumerate(zip("abc", pat))}
+            params = [(tmap[t], n) for n, t in zip("abc", pat)]
+            try:
+                it = Interp({"structs": [], "globals": [], "imports": [], "funcs": []})
+                it.scopes, it.globals = [{n: [ty, args[n]] for ty, n in params}], {}
+                rt, _ = it.ev(tree)       # static type by the reference rules; combinations it does not type are not this slice's
+            except Exception:
+                continue
+            f = {"name": "f", "params": params, "ret": rt, "body": [("ret", tree)], "export": True}
+            evals += 1
+            nontriv += 1
+            agg = engine.Agg()
+            case = {"fam": "typed", "desc": f"{','.join(pat)};{o1},{o2}", "mode": "min" if "(" not in text else "min", "units": [{"funcs": [f], "entry": "f", "inputs": [(args, {})]}]}
+            engine.check_ref("C08", case, agg)
+            for fl in agg.fails:
+                fl["key"] = f"C08|typed|{fl['key'].split('|')[2]}|levels={PREC[o1]}/{PREC[o2]}|{','.join(pat)}"
+                fl["part"] = "typed"
+                fails.append(fl)
+    return evals, nontriv, _cap(fails)
+
+
 def rejob(x):
     """Re-execute one worker job (used by ./check --rejob for history-dependent failures)."""
     def tup(v):
@@ -414,6 +454,8 @@ def run(tier, seed):
             jobs.append((w_tree, (4, lo, hi, "paren")))
     for lo, hi in _slices(169, 22):
         jobs.append((w_tree, (2, lo, hi, "layout2")))
+    for lo, hi in _slices(len(TYPED_PATTERNS) * 25, 45):
+        jobs.append((w_typed, (lo, hi)))
     for o1, o2 in REPRESENTATIVE:
         idx = BINOPS.index(o1) * 13 + BINOPS.index(o2)
         jobs.append((w_tree, (2, idx, idx + 1, "layoutfull")))
@@ -481,6 +523,9 @@ def run(tier, seed):
 
 
 def replay(rec, verbose=True):
+    if rec.get("part") == "typed":
+        from ..engine import replay_ref
+        return replay_ref(rec, verbose)
     if rec.get("part") == "tree":
         text = rec["text"]
         if text.startswith("t ") and text.split()[1] in ("=", "+=", "-=", "*=", "/="):
